@@ -225,6 +225,9 @@ static void parse_case(char *text)
     G.leakcheck = 1;
     G.main_a.kind = A_MAIN;
     G.main_a.skip_mutex = -1;
+    G.main_a.popped = -1;
+    for (int i = 0; i < MAXEXT; i++)
+        G.ext[i].popped = -1;
     for (int i = 0; i < MAXU; i++) {
         G.unit[i].skip_mutex = -1;
         G.unit[i].expect_pool = G.unit[i].cur_pool = -1;
